@@ -258,6 +258,7 @@ CLAIMED = {
         note=COMMON_NOTE + 'Assumed: pool configuration well-formed (cloud gcp/azure, worker type in the cloud\'s table, 1 <= worker_cores <= 256 - the driver validates against possible_cores_from_worker_type, syntactic obligation); specification data for per-core memory, disk maxima and the 10 GiB minimum (real machine tables checked to agree); IEEE-754 relative-error model without overflow; 64-bit model of the bit trick below 2^61; C25 parser contracts; prices opaque (which satisfying pool is cheapest is not decided); the front end is verified on the resource section of the per-job loop body plus syntactic obligations on the statements around it. In this fork convert_requests_to_resources has no local-ssd/data-disk comparison, so storage only has the per-cloud maximum. machine_type == "" ends in an AssertionError (500), allowed as a rejection.',
         technique='modular contracts on the real functions (pyvc: callee contracts with Optional results, loop invariants over the pool list, relative-error float model) -> z3; AST obligations for the call-site context; exhaustive native enumeration as bounded stand-in for two float helpers; native replay of every contract on the real modules',
         design_ref='7/C12',
+    ),
     'C14': dict(
         text='(1) The real wrapper coroutines (gear.auth authenticated_users_only / authenticated_developers_only, front_end authenticated_developers_or_auth_only / billing_project_users_only, web_common security headers) executed symbolically with the handler as an oracle: '
         'the handler is reached only with the userdata the authenticator returned, only for state != inactive, for developers-only only when is_developer is truthy (discharged for the int, bool and null JSON representations, `is`-identity modelled), '
